@@ -6,8 +6,11 @@
 set -u
 SRC=$1; ID=$2; PROP=$3
 OUT=/verif/seeded/$ID
-WT=/tmp/confirm/wt
-export CARGO_TARGET_DIR=/tmp/confirm/target CARGO_NET_OFFLINE=true
+# LANE=<n> gives the run its own scratch worktree and build directory (several confirmations in parallel);
+# SKIP_CHECK=1 leaves /repo alone (the check is then run later with tools/try_mutant.sh).
+LANE=${LANE:-}
+WT=/tmp/confirm/wt$LANE
+export CARGO_TARGET_DIR=/tmp/confirm/target$LANE CARGO_NET_OFFLINE=true
 FEAT="--no-default-features --features allow_filesystem,collisions,stroke_planning --offline"
 mkdir -p /tmp/confirm "$OUT"
 git -C /repo worktree remove --force $WT 2>/dev/null; rm -rf $WT
@@ -22,10 +25,12 @@ mut_demo=$(cargo test --test demo_x $FEAT 2>&1 | grep -E "^test result" | tail -
 cd /verif
 git -C /repo worktree remove --force $WT
 # run the monitor against the change
+if [ "${SKIP_CHECK:-0}" = 1 ]; then chk=""; code=-1; else
 git -C /repo apply "$SRC/patch.diff"
 chk=$(bin/check $PROP quick 2>&1)
 code=$?
 git -C /repo checkout -- .
+fi
 sigs=$(echo "$chk" | grep -E "^  signature=" | head -3 | sed 's/ what=.*//' | tr '\n' ';')
 cp "$SRC/patch.diff" "$OUT/patch.diff"; cp "$SRC/demo.rs" "$OUT/demo.rs"
 python3 - "$SRC/meta.json" "$OUT/meta.json" "$PROP" "$clean_demo" "$suite" "$mut_demo" "$code" "$sigs" <<'PY'
